@@ -91,6 +91,44 @@ CLAIMED = {
         "technique": "Coq proof by computation on translator-regenerated stage programs + general ordering lemma + failure-injection correspondence",
         "design_ref": "DESIGN.md section 4, C12",
     },
+    "C05": {
+        "level": "proof",
+        "text": "Coq theorems on point maps: the value at every point after a merge is the one the overwrite policy "
+                "decides; default-policy conflicts raise and leave file and memory unchanged; untouched points are never "
+                "dropped or altered; the harvester state machine (memory + file, new sessions, long-lived objects with "
+                "stale memory, save_merge_ds, drop_sel) refines one abstract merged dataset over every synced history; "
+                "every site resolves a data name (with or without extension) to the same path, over the sites "
+                "regenerated from manage.py / farming.py. Differential execution against real Harvesters and files.",
+        "note": "Trusted: Coq kernel; gen_names translator; hand model Model/Harvest.v; xarray merge / combine_first / "
+                "outer join / dtype promotion and the h5netcdf / joblib round trips are library behaviour validated by "
+                "correspondence only; expand_dims is oracle-tested only. No axioms.",
+        "technique": "Coq proof (refinement of an abstract map by induction over histories) + translated path sites + differential correspondence",
+        "design_ref": "DESIGN.md section 4, C05",
+    },
+    "C14": {
+        "level": "proof",
+        "text": "PARTIAL. Proved (over definitions regenerated from manage.py / farming.py): the file used is the given "
+                "name with the engine's extension added when it has none, identically at every save / load / merge / "
+                "delete site; resolution is idempotent and leaves the temporary name alone; attribute coercion rewrites "
+                "exactly None/True/False for netCDF engines. Tested (differential save -> load comparison, labelled as "
+                "a test in the evidence): dims, coords, dtypes, complex values, NaNs, attributes, lazy loading.",
+        "note": "The data round trip is HDF5 / joblib / xarray behaviour that no Gallina model expresses: not proved. "
+                "netcdf4 / zarr engines are not importable here. Trusted: Coq kernel, gen_names translator. No axioms.",
+        "technique": "Coq proof of the name-resolution / coercion logic over translator-regenerated definitions + differential round-trip test",
+        "design_ref": "DESIGN.md section 4, C14",
+    },
+    "C15": {
+        "level": "proof",
+        "text": "Coq theorems: every synced sampling run appends exactly its rows and changes no earlier row; memory "
+                "equals the file; a new sampler (or a long-lived one with stale memory) continues from the file; the rows "
+                "of a run pair each drawn setting with the function's value at exactly that setting for every shuffle "
+                "permutation (the DataFrame-row theorem over the regenerated data flow of combo_runner_core). "
+                "Differential execution of random histories incl. crops, csv / pickle and two interleaved samplers.",
+        "note": "The random draws are inputs of the model (recorded and checked against the allowed choices by the "
+                "oracle). pandas concat / IO is library behaviour validated by correspondence. No axioms.",
+        "technique": "Coq proof (append-only state machine + C03 row theorem) + differential history correspondence",
+        "design_ref": "DESIGN.md section 4, C15",
+    },
     "C07": {
         "level": "proof",
         "text": "Coq theorems (unbounded N, batch size, batch count) over a model of choose_batch_settings and the "
@@ -116,6 +154,20 @@ CLAIMED = {
                 "x**0.5 (libm pow) vs correctly rounded sqrt within 1 ulp.",
         "technique": "Coq proof over Reals (induction on the sample list) + translator-regenerated model + bit-exact PrimFloat correspondence",
         "design_ref": "DESIGN.md section 4, C19",
+    },
+    "C20": {
+        "level": "proof",
+        "text": "Coq theorems, no axioms: C20_core for ALL rationals (the printed string denotes the error rounded to two "
+                "significant figures and the value rounded to the same last digit), C20_branches / C20_full over an "
+                "abstract float operations record under named hypotheses on division and 10**k accuracy, C20_full_table "
+                "with Python's actual 10**k table (nothing left to assume), the old digit rule and the old un-capped "
+                "exponent refuted by witnesses; the model is regenerated from utils.py by a translator and bridged; "
+                "string-exact correspondence between the PrimFloat instance and the real function incl. dense boundary streams.",
+        "note": "IEEE-754 division accuracy (H_div) is a hypothesis of C20_full, not derived from the PrimFloat "
+                "specification; subnormal err is covered by correspondence only. Trusted: Coq kernel, gen_fmt translator, "
+                "CPython's correctly rounded float formatting.",
+        "technique": "Coq proof over exact rationals (decimal rounding lemmas) + translator-regenerated model + string-exact PrimFloat correspondence",
+        "design_ref": "DESIGN.md section 4, C20",
     },
 }
 
